@@ -68,7 +68,7 @@ def construction_sites(prog):
             continue
         for b in fn.live_blocks():
             for s in fn.stmts(b):
-                if s[0] == "=" and s[2][0] == "agg" and isinstance(s[2][1], list) and s[2][1][0] == "adt" and re.search(r"(diagnostics::DiagnosticData|executable::BuildError|validation::Details)$", s[2][1][1]):
+                if s[0] == "=" and s[2][0] == "agg" and isinstance(s[2][1], list) and s[2][1][0] == "adt" and re.search(r"(diagnostics::DiagnosticData|executable::BuildError|schema::BuildError|validation::Details)$", s[2][1][1]):
                     out.setdefault(s[2][1][2], set()).add(fn.uid)
     return out
 
